@@ -387,7 +387,13 @@ where
 
 pub fn rec_p4_addr(r: u16) -> u64 {
     let r = r as u64;
-    (r << 39) | (r << 30) | (r << 21) | (r << 12)
+    let a = (r << 39) | (r << 30) | (r << 21) | (r << 12);
+    // sign extension for the kernel half
+    if r >= 256 {
+        a | 0xffff_0000_0000_0000
+    } else {
+        a
+    }
 }
 
 /// Where the crate sees the level-4 table in the current view.
